@@ -281,6 +281,12 @@ class CodeBuilder:
 
     def add_type_modules(self, *types_: typing.Type) -> None:
         for t in types_:
+            if get_type_origin(t) is types.MappingProxyType:
+                # type_name() renders it as "mappingproxy": its __module__ is
+                # "builtins" but that is not a builtin name
+                self.ensure_object_imported(
+                    types.MappingProxyType, "mappingproxy"
+                )
             module = inspect.getmodule(t)
             if not module:
                 continue
